@@ -5,12 +5,30 @@
 From Coq Require Import Extraction ExtrOcamlBasic NArith List.
 From AV Require Import Generated.Table Spec.Utf8 Spec.Vt Spec.Strip Model.Base Model.Utf8parse Model.Parser Model.Strip Spec.Sgr Model.Wincon.
 
+From AV Require Import Generated.Style Spec.Algebra Model.Style.
+
 Extraction Language OCaml.
 
 Extraction "../ocaml/gen/extracted.ml"
   Model.Parser.advance Model.Parser.parser_new Model.Parser.cfg_default Model.Parser.mkCfg
   Model.Parser.state_change Generated.Table.all_states Generated.Table.state_disc Generated.Table.action_disc
   Spec.Vt.vt_step Spec.Vt.vt_init
+  Model.Style.e_new Model.Style.e_is_plain Model.Style.e_contains Model.Style.e_insert Model.Style.e_remove Model.Style.e_clear
+  Model.Style.e_set Model.Style.e_bitor Model.Style.e_bitor_assign Model.Style.e_sub Model.Style.e_sub_assign
+  Model.Style.e_iter Model.Style.e_index_iter Model.Style.e_debug Model.Style.e_of_mask
+  Model.Style.ansi_bright Model.Style.ansi256_from Model.Style.color_repr Model.Style.color_of_repr
+  Model.Style.st_new Model.Style.st_fg_color Model.Style.st_bg_color Model.Style.st_underline_color Model.Style.st_effects
+  Model.Style.st_get_fg_color Model.Style.st_get_bg_color Model.Style.st_get_underline_color Model.Style.st_get_effects
+  Model.Style.st_conv Model.Style.st_is_plain Model.Style.st_from_effects Model.Style.st_bitor Model.Style.st_bitor_assign
+  Model.Style.st_sub Model.Style.st_sub_assign Model.Style.st_eq_effects
+  Generated.Style.all_ansi Generated.Style.ansi_disc Generated.Style.ansi_is_bright Generated.Style.ansi256_into_ansi
+  Generated.Style.ansi256_from_ansi Generated.Style.ansi_fg_str Generated.Style.ansi_bg_str Generated.Style.all_conv
+  Generated.Style.conv_name Generated.Style.metadata Generated.Style.effect_consts
+  Spec.Algebra.chi Spec.Algebra.of_chi Spec.Algebra.v_union Spec.Algebra.v_diff Spec.Algebra.v_subset Spec.Algebra.v_empty
+  Spec.Algebra.sp_iter_chi Spec.Algebra.sp_debug Spec.Algebra.conv_names Spec.Algebra.sp_named_effect
+  Spec.Algebra.with_bright Spec.Algebra.is_bright_ix Spec.Algebra.sp_into_ansi Spec.Algebra.sp_from_ansi
+  Spec.Algebra.sp_setc Spec.Algebra.sp_set_eff Spec.Algebra.sp_plain Spec.Algebra.sp_get Spec.Algebra.sp_eff
+  Spec.Algebra.sp_eq_effects Spec.Algebra.sp_style_is_plain
   Spec.Strip.spec_strip Spec.Strip.strip_step Spec.Strip.s_init Spec.Utf8.valid_utf8
   Model.Strip.strip_bytes_pieces Model.Strip.strip_str_pieces Model.Strip.strip_bytes_chunks Model.Strip.strip_str_chunks
   Model.Utf8parse.u8_new
